@@ -11,7 +11,7 @@ E1 exploration on the real solve pipeline (`_Simu.Solve` -> `Solvers.Solve_simu`
   the bounds of `Get_lb_ub`), and a user weak form with a NON symmetric operator ("advdiff": Simulations.WeakForms with a
   non-symmetric conductivity tensor, QUAD4 3x2 grid; K_fc != K_cf^T, conjugate gradients excluded).
 * BC program: EVERY ordered selection of 1..3 distinct atoms of
-      dAc  Dirichlet(A, constants)            dAa  Dirichlet(A, arrays; unknowns named in reversed order)
+      dAc  Dirichlet(A, constants)            dAa  Dirichlet(A listed in decreasing node order, arrays; unknowns reversed)
       dBf  Dirichlet(B, functions of x,y,z)   dAB  Dirichlet(A n B again, one unknown)
       nC   Neumann point load on C            lD   line load on D
   with A n B != {} (so dofs are entered two, three times in every order and value form): 6 + 30 + 120 = 156 programs.
@@ -265,7 +265,7 @@ def _grid_spec(problem, orphan, mesh="base"):
         s.atoms = {
             "G": ("dir", s.G, [0.004, -0.003], ["x", "y"]),
             "dAc": ("dir", s.A, [0.02, -0.01], ["x", "y"]),
-            "dAa": ("dir", s.A, [arr1, arr2], ["y", "x"]),
+            "dAa": ("dir", s.A[::-1].copy(), [arr1, arr2], ["y", "x"]),
             "dBf": ("dir", s.B, [lambda x, y, z: 0.03 * x - 0.01, lambda x, y, z: 0.02 * x * x + 0.005], ["x", "y"]),
             "dAB": ("dir", s.AB, [0.015], ["y"]),
             "nC": ("neu", s.C, [0.5, lambda x, y, z: -0.3 * y], ["x", "y"]),
@@ -276,7 +276,7 @@ def _grid_spec(problem, orphan, mesh="base"):
         s.atoms = {
             "G": ("dir", s.G, [0.4], [nm]),
             "dAc": ("dir", s.A, [1.0], [nm]),
-            "dAa": ("dir", s.A, [arr1 * 30], [nm]),
+            "dAa": ("dir", s.A[::-1].copy(), [arr1 * 30], [nm]),
             "dBf": ("dir", s.B, [lambda x, y, z: 2.0 + x], [nm]),
             "dAB": ("dir", s.AB, [0.25], [nm]),
             "nC": ("neu", s.C, [0.7], [nm]),
@@ -286,7 +286,7 @@ def _grid_spec(problem, orphan, mesh="base"):
         s.atoms = {
             "G": ("dir", s.G, [0.1], ["d"]),
             "dAc": ("dir", s.A, [0.3], ["d"]),
-            "dAa": ("dir", s.A, [arr1 * 6], ["d"]),
+            "dAa": ("dir", s.A[::-1].copy(), [arr1 * 6], ["d"]),
             "dBf": ("dir", s.B, [lambda x, y, z: 0.2 + 0.1 * x], ["d"]),
             "dAB": ("dir", s.AB, [0.05], ["d"]),
             "nC": ("neu", s.C, [0.05], ["d"]),
@@ -330,7 +330,7 @@ def _beam_spec(resol, orphan):
         # ground: clamp of the first member + a roller on the second one (a hinged joint leaves its rotation free)
         "G": [("dir", s.G, [0.002, -0.001, 0.003], ["x", "y", "rz"]), ("dir", np.array([n2[1]]), [0.001], ["x"])],
         "dAc": ("dir", s.A, [0.01, -0.02, 0.03], ["x", "y", "rz"]),
-        "dAa": ("dir", s.A, [arr1, arr2, 0.004], ["rz", "y", "x"]),
+        "dAa": ("dir", s.A[::-1].copy(), [arr1, arr2, 0.004], ["rz", "y", "x"]),
         "dBf": ("dir", s.B, [lambda x, y, z: 0.01 * x + 0.02 * y, lambda x, y, z: -0.015 * x], ["x", "y"]),
         "dAB": ("dir", s.AB, [0.005], ["rz"]),
         "nC": ("neu", s.C, [0.3, -0.2, 0.1], ["x", "y", "rz"]),
